@@ -91,7 +91,6 @@ def hypsOf (inp : Input) : String :=
     if fullPartialHyps inp.song b then "H=1"
     else if !decide ((inp.song.tracks.map (·.1)).Pairwise (· < ·)) then "H=0:unsorted"
     else if b.trackList.isEmpty then "H=0:notracks"
-    else if !b.seq.all (· < 256) then "H=0:bytes"
     else if !(b.trackList.map (·.2) ++ b.conv.subList).all MdsRead.fragB then "H=0:frag"
     else "H=0:len"
 
